@@ -9,15 +9,20 @@ def pool(ctx):
     sd = ctx.spec_dir("pool")
     inv = ["TypeOK", "C19_PoolBound", "C19_TokenPerConn", "C19_NoSharing", "C19_OnlyLiveHandedOut", "C19_NothingLeftAfterClose"]
     if not ctx.replay:
-        # without the pruner every invariant holds; with it C19_PrunerNeverStuck is the recorded deviation
-        c = {"Clients": ["c1", "c2", "c3"], "Max": 2, "MaxConns": ctx.pick(4, 5), "Prune": False}
+        c = {"Clients": ["c1", "c2", "c3"], "Max": 2, "MaxConns": ctx.pick(4, 5), "Prune": False, "Dev": []}
         ctx.write_cfg(sd, "MC.cfg", "Spec", c, inv + ["C19_PrunerNeverStuck"], "Bounded")
         ctx.tlc_check(sd, "Pool", "MC.cfg", workers=8, timeout=900)
         c2 = dict(c, Prune=True, Clients=["c1", "c2"])
-        ctx.write_cfg(sd, "MCP.cfg", "Spec", c2, [i for i in inv if i != "C19_NothingLeftAfterClose"], "Bounded")
+        ctx.write_cfg(sd, "MCP.cfg", "Spec", c2, inv + ["C19_PrunerNeverStuck"], "Bounded")
         ctx.tlc_check(sd, "Pool", "MCP.cfg", workers=8, timeout=900)
+        # negative control: the pruner behaviour found in the repository gets stuck holding connections after Close
+        c3 = dict(c2, Dev=['"prunerStuck"'])
+        ctx.write_cfg(sd, "MCN.cfg", "Spec", c3, ["C19_PrunerNeverStuck"], "Bounded")
+        neg = ctx.tlc_check(sd, "Pool", "MCN.cfg", workers=4, timeout=300, expect_ok=False)
+        if neg["ok"]:
+            raise Infra("negative control: Pool with the stuck pruner does not violate C19_PrunerNeverStuck")
     gl = 10
-    gc = {"Clients": ['"c1"', '"c2"', '"c3"'], "Max": 2, "MaxConns": 6, "Prune": False, "GenLen": gl}
+    gc = {"Clients": ['"c1"', '"c2"', '"c3"'], "Max": 2, "MaxConns": 6, "Prune": False, "Dev": [], "GenLen": gl}
     files = ["coordinator/zz_verif_pool_test.go"]
     def run_replay(inp, label):
         p = ctx.write_json("pool-%s.json" % label, inp)
